@@ -774,6 +774,23 @@ pub fn mapping_indexed_access(
                 },
             };
             match string_key {
+                // `T[A | B]` is `T[A] | T[B]`: the keys are looked up one at a time, because the members of
+                // an intersection may declare different ones
+                Some(MappingStrKey::Str {
+                    allowed: true,
+                    values,
+                }) if values.len() > 1 => {
+                    let mut acc: Rc<SemType> = SemTypeContext::never().into();
+                    for v in values {
+                        let sk = MappingStrKey::Str {
+                            allowed: true,
+                            values: vec![v],
+                        };
+                        let ty = bdd_mapping_member_type_inner(ctx, bdd.clone(), sk, None)?;
+                        acc = acc.union(&ty)?;
+                    }
+                    Ok(acc)
+                }
                 Some(sk) => bdd_mapping_member_type_inner(ctx, bdd.clone(), sk, None),
                 None => bdd_mapped_record_member_type_inner_val(
                     ctx,
